@@ -21,7 +21,7 @@ PROP = {'rule': 'rapid state machine (<= ~25 actions) over the real migration Re
  'units': [{'name': 'migration',
             'pkg': 'pkg/descheduler/controllers/migration',
             'files': ['C17/c17_migration_test.go'],
-            'tests': [{'run': 'TestVerifC17History', 'quick': 600, 'quick_shards': 2, 'thorough': 3000, 'steps': 50}]}],
+            'tests': [{'run': 'TestVerifC17History', 'quick': 600, 'quick_shards': 3, 'thorough': 3000, 'steps': 50}]}],
  'manifest': {'technique': 'property-based testing (rapid): state-machine histories of reconcile / environment / clock / restart / '
                            'fault-injection actions against the real controller, with a recording evictor and an independent oracle on the raw API objects',
               'text': 'Generated-history search: every Evict call of a reservation-first job is stamped with the persisted Reservation and pod '
